@@ -8,4 +8,5 @@ import Proofs.C03ExtAvg
 import Proofs.C03ExtGroup
 import Proofs.C03ExtLookup
 import Proofs.C03ExtFields
+import Proofs.C03ExtBucket
 import Proofs.C03ExtStage
